@@ -363,6 +363,19 @@ func deepChain(code uint32, depth int, leaf []byte) []byte {
 	return body
 }
 
+// c04FillGroups adds a member to every group of a decoded tree (empty ones included) and
+// returns the number of groups.
+func c04FillGroups(avps []*diam.AVP) int {
+	n := 0
+	for _, a := range avps {
+		if g, ok := a.Data.(*diam.GroupedAVP); ok && g != nil {
+			n += 1 + c04FillGroups(g.AVP)
+			g.AddAVP(diam.NewAVP(9009, 0x40, 0, datatype.Unsigned32(0xC0FFEE)))
+		}
+	}
+	return n
+}
+
 func TestC04(t *testing.T) {
 	rec := ev.Open(t, "C04")
 	refcodecSelfCheck(t)
@@ -649,6 +662,21 @@ func TestC04(t *testing.T) {
 			}
 			c.Event("wellframed_accepted_equal", 1)
 			c.Event("avps_compared", facts.count)
+			// an application completes the groups of the message it was given (an agent adding a
+			// member before forwarding); the same bytes read again are framed as before: what was
+			// done to one decoded message is not found in the next
+			if ng := c04FillGroups(m.AVP); ng > 0 {
+				var m2 *diam.Message
+				if p, bad := guard(func() { m2, err = diam.ReadMessage(bytes.NewReader(wire), ctx.Parser) }); bad || err != nil {
+					c.Fail(sig("reread"), wire, nil, "the same bytes read a second time: err=%v %s", err, p)
+					return
+				}
+				if d := compareFraming(m2.AVP, ref, ""); d != "" {
+					c.Fail(sig("framing-differs-after-application-write"), wire, nil, "after the application added a member to each of the %d groups of the message decoded first, the same bytes read again are reported differently from a walk by declared lengths: %s", ng, d)
+					return
+				}
+				c.Event("reread_after_application_write", 1)
+			}
 			if c.WantSample() && facts.count > 2 && len(wire) < 200 {
 				c.Sample(map[string]any{"dict": ctx.Name, "wire": ev.Hex(wire), "avps_by_declared_length": facts.count, "classes": classes})
 			}
